@@ -24,6 +24,7 @@ THEOREMS_DOC = {
     "C03_every_subtype_has_rule": "every defined sub-type has an explicit payload rule",
     "C03_child_schema_total": "every presentation type has a child schema (no KeyError)",
     "C03_tables_well_kinded": "no generated validator applies a combinator to a value kind it cannot take",
+    "C03_validator_functions_unchanged": "AST fingerprints of the hand-modelled validator functions equal those the model was written against",
 }
 VERS = oracles.VERSIONS
 MAXSUB = {  # spec maxima, only to size the grid
@@ -36,7 +37,12 @@ CORPUS = ["", "0", "1", "2", "-1", "100", "101", "254", "255", "256", " 50 ", "5
           "2.2", "2.0.0-beta", "1.10", "v2.1", "latest", "100.0", "100.00000000000001", "100.000000000000001",
           "-0.0", "-1e-400", "1e400", "nan", "inf", "-inf", "infinity", "1_0.5", " 99.9\n", "0.5", "-1.0",
           "1.0000000000000002", "-1.0000000000000002", "1e-1", "\x1c5", "5\x1f", "+7", "007", "٣", "1 0", "½",
-          "0" * 40 + "7", "9" * 25]
+          "0" * 40 + "7", "9" * 25,
+          # strings int(x, 16) / float() / int() parse but that are not what the rule means
+          "0xa1a1", "0Xa1a1", "+1a1a1", "-1a1a1", " 1a1a1", "\t1a1a1", "a1_1a1", "0xa1a1a1", "+1a1a1a1", "a1a1_1a1",
+          " ffffff", "ffffff ", "ffffff\n", "fffff\x00", "１２３４５６", "0b1010", "1_000", "1e1", "0.5e1", "٠", "1,2,3\n",
+          "+1,-2,3e1", "1,2,", ",,", "1;2", "Auto ", " Auto", "auto", "AUTO", "HeatOn\n", "0 ", " 1", "01", "+1", "1.", "True",
+          "100 ", "１００", "1_0_0", "0100", "-0", "254.0", "0xfe", "2.2 ", "1.4\n", "1,4", "1.4.0.0", "١.٤"]
 
 
 def grid(ctx):
